@@ -292,6 +292,9 @@ def timeslot_rules(ctx, repo, types):
             b.attrs["sync_or_embedded_signalling"] = None
             b.attrs["emb"] = None
             b.attrs["has_emb"] = False
+            # the burst arrives with a sequence number of its own (e.g. the one an IP site connect frame carried): the
+            # timeslot's count must replace it for every value, 0 included
+            b.attrs["sequence_no"] = 0xA5
             out = I.call(pb, [ts, b], {})
             return ts, pre, out
 
@@ -361,11 +364,13 @@ def observer_rules(ctx, repo):
         if m is None:
             raise AnalysisError(f"WithObservers.{name} vanished")
         ctx.saw_func(m)
-        for raising in ("first", "second", "all"):
+        for raising, exc_kind in (("first", "RuntimeError"), ("second", "RuntimeError"), ("all", "RuntimeError"), ("first", "CancelledError")):
             I = Interp(repo)
 
-            def raiser(a, kw):
-                raise PathRaise("RuntimeError", "observer raises")
+            def raiser(a, kw, exc_kind=exc_kind):
+                # CancelledError stands for the exceptions that derive from BaseException only (asyncio cancellation, SystemExit):
+                # "an observer that raises" includes them, and `except Exception` does not stop them
+                raise PathRaise(exc_kind, "observer raises")
 
             def run_w(st, m=m, args=args, raising=raising):
                 I.st = st
@@ -383,5 +388,5 @@ def observer_rules(ctx, repo):
                 I.st = st
                 got = [e[0] for e in events(st) if e[1] == name]
                 ok = k == "ok" and got == ["obs1", "obs2", "obs3"]
-                ctx.ob("observers/isolation", f"{m.qualname} | {raising} observer(s) raise", ok,
+                ctx.ob("observers/isolation", f"{m.qualname} | {raising} observer(s) raise" + ("" if exc_kind == "RuntimeError" else f" {exc_kind} (a BaseException)"), ok,
                        f"{'no exception escapes' if k == 'ok' else 'exception escapes: ' + str(v)}; observers notified: {got}", m.loc)
